@@ -153,6 +153,73 @@ theorem new_attribute_inherits_nothing (w : World) (hw : Reachable w) (dn nm : S
     subst hv
     exact h1
 
+/-- looking a key up in a list after `areplace` on that key -/
+theorem lookup_areplace_self {β} (l : List (String × β)) (k : String) (v : β) (h : (l.lookup k).isSome = true) :
+    (areplace l k v).lookup k = some v := by
+  unfold areplace
+  induction l with
+  | nil => simp at h
+  | cons p t ih =>
+    obtain ⟨k', v'⟩ := p
+    simp only [List.map_cons, List.lookup_cons] at h ⊢
+    by_cases hk : (k == k') = true
+    · have : k' = k := (eq_of_beq hk).symm
+      subst this
+      simp
+    · have hk' : (k == k') = false := by simpa using hk
+      have hk'' : (k' == k) = false := by
+        cases hb : k' == k
+        · rfl
+        · exact absurd (eq_of_beq hb).symm (by intro h2; rw [h2] at hk'; simp at hk')
+      simp only [hk', hk'', Bool.false_eq_true, if_false] at h ⊢
+      simp only [List.lookup_cons, hk']
+      exact ih h
+
+/-- **A renamed attribute keeps its access, under its new name.** After `rename_attribute` the
+new name denotes the very same attribute (identifier, hint, status) the old name denoted: policies
+written with the new name produce the rights, hence reach the secrets, the old name did
+(`edits_keep_secrets`: the rename changed no secret). -/
+theorem rename_keeps_access_by_name (s s' : Struct) (hS : s.WF) (hb : s.IdsBelow) (dn o n : String)
+    (h : s.renameAttribute dn o n = .ok s') (a : Attr) (ha : s.getAttribute ⟨dn, o⟩ = .ok a) :
+    s'.getAttribute ⟨dn, n⟩ = .ok a := by
+  have hS' : s'.WF := Struct.apply_wf (e := .rename dn o n) hS hb (by simpa [Struct.apply] using h)
+  obtain ⟨d, d', hdl, hf, rfl⟩ := Struct.onDim_spec h
+  unfold Struct.getAttribute at ha ⊢
+  simp only [hdl] at ha
+  cases hlo : d.attrs.lookup o with
+  | none => simp [hlo] at ha
+  | some a0 =>
+    simp only [hlo, Except.ok.injEq] at ha
+    subst ha
+    simp only
+    rw [lookup_areplace_self _ _ _ (by rw [hdl]; rfl)]
+    simp only
+    -- the renamed dimension lists `(n, a0)`, and its names are distinct
+    have hmem : (n, a0) ∈ d'.attrs := by
+      rcases rename_keeps_attr d d' o n hf with hmap | ⟨_, a1, hl1, hd'⟩
+      · unfold Dim.renameAttribute at hf
+        by_cases ho : d.ordered = true
+        · simp only [ho, if_true, hlo] at hf
+          split at hf
+          · cases hf
+          · simp only [Except.ok.injEq] at hf; subst hf
+            exact List.mem_map.2 ⟨(o, a0), Look.lookup_mem hlo, by simp⟩
+        · simp only [ho, Bool.false_eq_true, if_false] at hf
+          split at hf
+          · cases hf
+          · simp only [hlo, Except.ok.injEq] at hf; subst hf
+            simp
+      · rw [hlo] at hl1
+        simp only [Option.some.injEq] at hl1
+        subst hl1
+        rw [hd']; simp
+    have hnd : (d'.attrs.map (·.1)).Nodup := by
+      have := hS'.names (dn, d') (by
+        have h1 : ((areplace s.dims dn d').lookup dn) = some d' := lookup_areplace_self _ _ _ (by rw [hdl]; rfl)
+        exact Look.lookup_mem h1)
+      exact this
+    rw [Look.mem_lookup_of_nodup hnd hmem]
+
 /-- non-vacuity: delete then add — the new attribute gets a new identifier (2), not the deleted one's (0) -/
 example : (Struct.empty.run [.addDim "D" false, .addAttr "D" "A" false none, .addAttr "D" "B" false none,
     .delAttr "D" "A", .addAttr "D" "C" false none]).dims = [("D", ⟨false, [("B", ⟨1, false, false⟩), ("C", ⟨2, false, false⟩)]⟩)] := by
